@@ -12,6 +12,7 @@ import Goat.Driver.Call
 import Goat.Driver.Slice
 import Goat.Driver.Str
 import Goat.Driver.Print
+import Goat.Driver.Reload
 /-! goatmodel: one operation per input line, one canonical output line per operation. -/
 open Goat.Driver
 
@@ -21,6 +22,7 @@ structure DriverState where
   imap : IMapState := {}
   slice : SliceState := {}
   heap : Goat.Print.Heap := []
+  rl : RlState := {}
 
 def step (st : DriverState) (line : String) : DriverState × String :=
   match (line.trimAscii.toString.splitOn " ").filter (· ≠ "") with
@@ -30,6 +32,7 @@ def step (st : DriverState) (line : String) : DriverState × String :=
   | "tsort" :: args => (st, tsortCmd args)
   | "opt" :: args => (st, optCmd args)
   | "str" :: args => (st, strCmd args)
+  | "rl" :: args => let (r, o) := rlCmd st.rl args; ({ st with rl := r }, o)
   | "print" :: args => let (h, o) := printCmd st.heap args; ({ st with heap := h }, o)
   | "slice" :: args => let (s, o) := sliceCmd st.slice args; ({ st with slice := s }, o)
   | "call" :: args => (st, callCmd args)
